@@ -317,12 +317,21 @@ Section Lg.
 End Lg.
 
 (* ------------------------------------------------------------------------------------------------ single checks *)
-Definition spec_name (s : bytes) (obs : bool) : list tok :=
-  if Bool.eqb obs (spec_name_valid s) then []
-  else if obs then fail "name_valid_iff:invalid_accepted" else fail "name_valid_iff:valid_rejected".
-Definition spec_unit (s : bytes) (obs : bool) : list tok :=
-  if Bool.eqb obs (spec_unit_valid s) then []
-  else if obs then fail "unit_valid_iff:invalid_accepted" else fail "unit_valid_iff:valid_rejected".
+(* [obs] is the validator of this build (std::regex); [obs_nr] the hand-written variant of the same source file
+   (None = not called: it reads name[0] before looking at the size, so the driver does not call it on an empty view) *)
+Definition spec_name (s : bytes) (obs : bool) (obs_nr : option bool) : list tok :=
+  (if Bool.eqb obs (spec_name_valid s) then []
+   else if obs then fail "name_valid_iff:invalid_accepted" else fail "name_valid_iff:valid_rejected") ++
+  match obs_nr with
+  | None => check (is_nil s) "variants_agree:handwritten_name_not_called"
+  | Some b => check (Bool.eqb b (spec_name_valid s)) "variants_agree:handwritten_name"
+  end.
+Definition has_nul (s : bytes) : bool := existsb (fun b => Byte.eqb b x00) s.
+Definition spec_unit (s : bytes) (obs : bool) (obs_nr : bool) : list tok :=
+  (if Bool.eqb obs (spec_unit_valid s) then []
+   else if obs then fail "unit_valid_iff:invalid_accepted" else fail "unit_valid_iff:valid_rejected") ++
+  (if Bool.eqb obs_nr (spec_unit_valid s) then []
+   else if has_nul s then fail "variants_agree:handwritten_unit_embedded_nul" else fail "variants_agree:handwritten_unit").
 (* kind: true = name selector (pattern), false = exact selector *)
 Definition spec_pred (pattern_kind : bool) (raw s : bytes) (obs : bool) : list tok :=
   if pattern_kind then
